@@ -1,4 +1,366 @@
-import RaptorModel.Model.Stencil
+import RaptorModel.Lemmas.StencilLemmas
+/-!
+# C19 — stencil matrices on a regular grid, PETSc byte order and file offsets
+
+Property theorems about `Model/Stencil.lean` (`coords`, `index`, `numPoints`, `stencilPos`, `entry`,
+`matrix`) for grids of ANY dimension and ANY extents, plus the pure arithmetic behind the PETSc
+binary reader (big-endian byte swap, per-rank file offsets).
+
+Vocabulary from `Lemmas/StencilLemmas.lean`:
+* `InRange grid c`      — `c` is a coordinate vector of the grid (`Forall₂ (· < ·) c grid`);
+  indexed form `inRange_iff_getD`;
+* `strides grid`        — `stride_k = Π_{j>k} grid[j]`; `dotInt s o = Σ_k s_k * o_k` over `Int`;
+* `addOff c o`          — componentwise integer sum `c + o`; `AddInRange grid c o` — it is in range;
+* `Unit3 o`             — every entry of `o` is in `{-1,0,1}`;
+* `offset grid p q`     — `coords q − coords p` as integers (exactly the list `entry` computes).
+-/
 namespace Raptor.C19
-theorem placeholder : (1 : Nat) = 1 := rfl
+open Raptor.Stencil
+
+/-! ## 1. coordinates have the right shape -/
+
+theorem coords_length (grid : List Nat) (p : Nat) : (coords grid p).length = grid.length :=
+  Stencil.coords_length grid p
+
+/-- For a valid point every coordinate is below its extent. (`p < numPoints grid` already forces
+    all extents to be positive, see `extents_pos`.) -/
+theorem coords_lt (grid : List Nat) (p : Nat) (hp : p < numPoints grid) :
+    ∀ k, k < grid.length → (coords grid p).getD k 0 < grid.getD k 0 :=
+  ((inRange_iff_getD grid _).1 (coords_inRange grid p hp)).2
+
+/-- the same with the panicking accessor `[k]!` -/
+theorem coords_lt' (grid : List Nat) (p : Nat) (hp : p < numPoints grid) :
+    ∀ k, k < grid.length → (coords grid p)[k]! < grid[k]! := by
+  intro k hk
+  have h := coords_lt grid p hp k hk
+  have hk' : k < (coords grid p).length := by rw [Stencil.coords_length]; exact hk
+  simpa [List.getD_eq_getElem?_getD, hk, hk'] using h
+
+theorem extents_pos (grid : List Nat) (p : Nat) (hp : p < numPoints grid) : ∀ g ∈ grid, 0 < g :=
+  pos_of_numPoints_pos grid (Nat.lt_of_le_of_lt (Nat.zero_le _) hp)
+
+theorem numPoints_eq_prod (grid : List Nat) : numPoints grid = grid.prod :=
+  Stencil.numPoints_eq_prod grid
+
+/-! ## 2. the numbering is a bijection between points and coordinate vectors -/
+
+theorem index_coords (grid : List Nat) (p : Nat) (hp : p < numPoints grid) :
+    index grid (coords grid p) = p :=
+  Stencil.index_coords grid p hp
+
+theorem coords_index (grid c : List Nat) (hl : c.length = grid.length)
+    (hc : ∀ k, k < grid.length → c.getD k 0 < grid.getD k 0) :
+    coords grid (index grid c) = c ∧ index grid c < numPoints grid :=
+  have h : InRange grid c := (inRange_iff_getD grid c).2 ⟨hl, hc⟩
+  ⟨Stencil.coords_index grid c h, index_lt grid c h⟩
+
+/-- `coords` is injective on valid points -/
+theorem coords_injective (grid : List Nat) (p q : Nat) (hp : p < numPoints grid)
+    (hq : q < numPoints grid) (h : coords grid p = coords grid q) : p = q := by
+  rw [← index_coords grid p hp, ← index_coords grid q hq, h]
+
+/-! ## 3. diagonal offset = coordinate offset, exactly when the neighbour is inside the grid -/
+
+/-- If `c` and `c + o` are both coordinate vectors of the grid, the neighbour's index is the
+    point's index plus `Σ_k stride_k * o_k` — the diagonal on which the C++ generator puts the
+    weight of offset `o`. -/
+theorem index_add_offset (grid c : List Nat) (o : List Int) (hc : InRange grid c)
+    (ho : o.length = grid.length) (hco : AddInRange grid c o) :
+    (index grid ((addOff c o).map Int.toNat) : Int) = index grid c + dotInt (strides grid) o :=
+  index_add_offset_gen grid c o hc.length_eq ho (forall₂_nonneg _ _ hco)
+
+/-- ... and that neighbour is a valid point whose coordinate offset from `c` is `o`. -/
+theorem index_add_offset_valid (grid c : List Nat) (o : List Int) (hc : InRange grid c)
+    (ho : o.length = grid.length) (hco : AddInRange grid c o) :
+    index grid ((addOff c o).map Int.toNat) < numPoints grid ∧
+      offset grid (index grid c) (index grid ((addOff c o).map Int.toNat)) = o :=
+  ⟨index_lt grid _ (forall₂_toNat_inRange _ _ hco), offset_index_add grid c o hc ho hco⟩
+
+/-- The weight the model couples `c` and its in-grid neighbour `c + o` with is the stencil weight
+    of `o`. -/
+theorem entry_index_add_offset {K : Type} (grid c : List Nat) (o : List Int) (stencil : List K)
+    (hc : InRange grid c) (ho : o.length = grid.length) (hco : AddInRange grid c o)
+    (hu : Unit3 o) :
+    entry grid stencil (index grid c) (index grid ((addOff c o).map Int.toNat)) =
+      stencil[stencilPos o]? := by
+  have h := offset_index_add grid c o hc ho hco
+  rw [entry_of_unit3 grid stencil _ _ (by rw [h]; exact hu), h]
+
+/-- "Only then": if `coords p + o` leaves the grid, NO grid point `q` (in particular not the point
+    on the diagonal `p + Σ stride_k * o_k`) has coordinate offset `o` from `p`. -/
+theorem offset_ne_of_not_addInRange (grid : List Nat) (p q : Nat) (o : List Int)
+    (hq : q < numPoints grid) (hout : ¬ AddInRange grid (coords grid p) o) :
+    offset grid p q ≠ o :=
+  fun h => hout (addInRange_of_offset_eq grid p q o hq h)
+
+/-! ## 4. positions in the stencil array are base-3 numerals -/
+
+theorem stencilPos_lt (o : List Int) (ho : ∀ x ∈ o, -1 ≤ x ∧ x ≤ 1) :
+    stencilPos o < 3 ^ o.length :=
+  Stencil.stencilPos_lt o ho
+
+theorem stencilPos_injective (o₁ o₂ : List Int) (hl : o₁.length = o₂.length)
+    (h₁ : ∀ x ∈ o₁, -1 ≤ x ∧ x ≤ 1) (h₂ : ∀ x ∈ o₂, -1 ≤ x ∧ x ≤ 1)
+    (h : stencilPos o₁ = stencilPos o₂) : o₁ = o₂ :=
+  Stencil.stencilPos_injective o₁ o₂ hl h₁ h₂ h
+
+/-! ## 5. `entry` -/
+
+theorem entry_some_iff {K : Type} (grid : List Nat) (stencil : List K) (p q : Nat) (w : K) :
+    entry grid stencil p q = some w ↔
+      (∀ x ∈ offset grid p q, -1 ≤ x ∧ x ≤ 1) ∧
+        stencil[stencilPos (offset grid p q)]? = some w := by
+  by_cases h : Unit3 (offset grid p q)
+  · rw [entry_of_unit3 grid stencil p q h]
+    exact ⟨fun hw => ⟨h, hw⟩, fun hw => hw.2⟩
+  · rw [entry_of_not_unit3 grid stencil p q h]
+    exact ⟨fun hw => (by cases hw), fun hw => absurd hw.1 h⟩
+
+/-- `offset` is literally the list `entry` computes -/
+theorem offset_def (grid : List Nat) (p q : Nat) :
+    offset grid p q =
+      ((coords grid p).zip (coords grid q)).map fun c => (c.2 : Int) - (c.1 : Int) := rfl
+
+/-- The diagonal entry is the centre weight. (True for every `p`; the hypothesis `p < numPoints grid`
+    of the task statement is not needed.) -/
+theorem entry_self {K : Type} (grid : List Nat) (stencil : List K) (p : Nat) :
+    entry grid stencil p p = stencil[(3 ^ grid.length - 1) / 2]? := by
+  have h := offset_self grid p
+  rw [entry_of_unit3 grid stencil p p (by rw [h]; exact unit3_replicate_zero _), h,
+    stencilPos_zero]
+
+/-! ## 6. a symmetric stencil generates a symmetric matrix -/
+
+/-- (True for all `p q`; membership in the grid is not needed.) -/
+theorem entry_symmetric {K : Type} (grid : List Nat) (stencil : List K)
+    (hsym : ∀ o : List Int, o.length = grid.length → (∀ x ∈ o, -1 ≤ x ∧ x ≤ 1) →
+      stencil[stencilPos o]? = stencil[stencilPos (o.map Neg.neg)]?)
+    (p q : Nat) : entry grid stencil p q = entry grid stencil q p := by
+  by_cases h : Unit3 (offset grid p q)
+  · have h' : Unit3 (offset grid q p) := by rw [offset_swap]; exact unit3_neg h
+    rw [entry_of_unit3 grid stencil p q h, entry_of_unit3 grid stencil q p h', offset_swap grid p q]
+    exact hsym _ (offset_length grid p q) h
+  · have h' : ¬ Unit3 (offset grid q p) := by
+      intro h'
+      apply h
+      have := unit3_neg h'
+      rw [offset_swap grid p q] at this
+      simpa [List.map_map, Function.comp_def] using this
+    rw [entry_of_not_unit3 grid stencil p q h, entry_of_not_unit3 grid stencil q p h']
+
+/-! ## 7. the list of matrix entries -/
+
+theorem matrix_mem_iff {K : Type} (zero : K → Bool) (grid : List Nat) (stencil : List K)
+    (p q : Nat) (w : K) :
+    (p, q, w) ∈ matrix zero grid stencil ↔
+      p < numPoints grid ∧ q < numPoints grid ∧ entry grid stencil p q = some w ∧
+        zero w = false :=
+  Stencil.matrix_mem_iff zero grid stencil p q w
+
+/-- the symmetric-stencil matrix is symmetric as a set of triples -/
+theorem matrix_symmetric {K : Type} (zero : K → Bool) (grid : List Nat) (stencil : List K)
+    (hsym : ∀ o : List Int, o.length = grid.length → (∀ x ∈ o, -1 ≤ x ∧ x ≤ 1) →
+      stencil[stencilPos o]? = stencil[stencilPos (o.map Neg.neg)]?)
+    (p q : Nat) (w : K) :
+    (p, q, w) ∈ matrix zero grid stencil ↔ (q, p, w) ∈ matrix zero grid stencil := by
+  rw [matrix_mem_iff, matrix_mem_iff, entry_symmetric grid stencil hsym p q]
+  constructor <;> exact fun ⟨a, b, c⟩ => ⟨b, a, c⟩
+
+/-! ## 8. byte order (PETSc files are big-endian) -/
+
+/-- reverse the four bytes of a 32-bit word -/
+def byteswap32 (x : BitVec 32) : BitVec 32 :=
+  x.extractLsb' 0 8 ++ x.extractLsb' 8 8 ++ x.extractLsb' 16 8 ++ x.extractLsb' 24 8
+
+/-- reverse the eight bytes of a 64-bit word -/
+def byteswap64 (x : BitVec 64) : BitVec 64 :=
+  x.extractLsb' 0 8 ++ x.extractLsb' 8 8 ++ x.extractLsb' 16 8 ++ x.extractLsb' 24 8 ++
+    x.extractLsb' 32 8 ++ x.extractLsb' 40 8 ++ x.extractLsb' 48 8 ++ x.extractLsb' 56 8
+
+/-- bit `i` of the swapped word is bit `i % 8` of byte `3 - i / 8` -/
+theorem getLsbD_byteswap32 (x : BitVec 32) (i : Nat) (hi : i < 32) :
+    (byteswap32 x).getLsbD i = x.getLsbD (8 * (3 - i / 8) + i % 8) := by
+  unfold byteswap32
+  simp only [BitVec.getLsbD_append, BitVec.getLsbD_extractLsb']
+  have h1 : i < 8 ∨ (8 ≤ i ∧ i < 16) ∨ (16 ≤ i ∧ i < 24) ∨ (24 ≤ i) := by omega
+  rcases h1 with h | h | h | h <;>
+    simp (disch := omega) only [if_pos, if_neg, decide_eq_true, Bool.true_and] <;>
+    congr 1 <;> omega
+
+theorem byteswap32_byteswap32 (x : BitVec 32) : byteswap32 (byteswap32 x) = x := by
+  apply BitVec.eq_of_getLsbD_eq
+  intro i hi
+  rw [getLsbD_byteswap32 _ _ hi, getLsbD_byteswap32 _ _ (by omega)]
+  congr 1
+  omega
+
+theorem getLsbD_byteswap64 (x : BitVec 64) (i : Nat) (hi : i < 64) :
+    (byteswap64 x).getLsbD i = x.getLsbD (8 * (7 - i / 8) + i % 8) := by
+  unfold byteswap64
+  simp only [BitVec.getLsbD_append, BitVec.getLsbD_extractLsb']
+  have h1 : i < 8 ∨ (8 ≤ i ∧ i < 16) ∨ (16 ≤ i ∧ i < 24) ∨ (24 ≤ i ∧ i < 32) ∨
+      (32 ≤ i ∧ i < 40) ∨ (40 ≤ i ∧ i < 48) ∨ (48 ≤ i ∧ i < 56) ∨ (56 ≤ i) := by omega
+  rcases h1 with h | h | h | h | h | h | h | h <;>
+    simp (disch := omega) only [if_pos, if_neg, decide_eq_true, Bool.true_and] <;>
+    congr 1 <;> omega
+
+theorem byteswap64_byteswap64 (x : BitVec 64) : byteswap64 (byteswap64 x) = x := by
+  apply BitVec.eq_of_getLsbD_eq
+  intro i hi
+  rw [getLsbD_byteswap64 _ _ hi, getLsbD_byteswap64 _ _ (by omega)]
+  congr 1
+  omega
+
+/-- big-endian reading of a byte string (first byte most significant) -/
+def readBE (b : List (BitVec 8)) : Nat := b.foldl (fun acc x => acc * 256 + x.toNat) 0
+/-- little-endian reading of a byte string (first byte least significant) -/
+def readLE (b : List (BitVec 8)) : Nat := b.foldr (fun x acc => x.toNat + 256 * acc) 0
+
+/-- reversing the bytes exchanges the big- and little-endian readings (any length) -/
+theorem readBE_reverse (b : List (BitVec 8)) : readBE b.reverse = readLE b := by
+  unfold readBE readLE
+  rw [List.foldl_reverse]
+  congr 1
+  funext x acc
+  omega
+
+theorem readLE_reverse (b : List (BitVec 8)) : readLE b.reverse = readBE b := by
+  rw [← readBE_reverse, List.reverse_reverse]
+
+/-- the four bytes of a word as they lie in the memory of a little-endian machine -/
+def bytesLE32 (x : BitVec 32) : List (BitVec 8) :=
+  [x.extractLsb' 0 8, x.extractLsb' 8 8, x.extractLsb' 16 8, x.extractLsb' 24 8]
+
+def bytesLE64 (x : BitVec 64) : List (BitVec 8) :=
+  [x.extractLsb' 0 8, x.extractLsb' 8 8, x.extractLsb' 16 8, x.extractLsb' 24 8,
+   x.extractLsb' 32 8, x.extractLsb' 40 8, x.extractLsb' 48 8, x.extractLsb' 56 8]
+
+theorem readLE_bytesLE32 (x : BitVec 32) : readLE (bytesLE32 x) = x.toNat := by
+  simp only [readLE, bytesLE32, List.foldr_cons, List.foldr_nil, BitVec.extractLsb'_toNat,
+    Nat.shiftRight_eq_div_pow]
+  have := x.isLt
+  omega
+
+theorem readLE_bytesLE64 (x : BitVec 64) : readLE (bytesLE64 x) = x.toNat := by
+  simp only [readLE, bytesLE64, List.foldr_cons, List.foldr_nil, BitVec.extractLsb'_toNat,
+    Nat.shiftRight_eq_div_pow]
+  have := x.isLt
+  omega
+
+theorem bytesLE32_byteswap32 (x : BitVec 32) :
+    bytesLE32 (byteswap32 x) = (bytesLE32 x).reverse := by
+  simp only [bytesLE32, List.reverse_cons, List.reverse_nil, List.nil_append, List.cons_append,
+    List.cons.injEq, and_true]
+  refine ⟨?_, ?_, ?_, ?_⟩ <;>
+  · apply BitVec.eq_of_getLsbD_eq
+    intro i hi
+    simp only [BitVec.getLsbD_extractLsb', hi, decide_true, Bool.true_and]
+    rw [getLsbD_byteswap32 _ _ (by omega)]
+    congr 1
+    omega
+
+theorem bytesLE64_byteswap64 (x : BitVec 64) :
+    bytesLE64 (byteswap64 x) = (bytesLE64 x).reverse := by
+  simp only [bytesLE64, List.reverse_cons, List.reverse_nil, List.nil_append, List.cons_append,
+    List.cons.injEq, and_true]
+  refine ⟨?_, ?_, ?_, ?_, ?_, ?_, ?_, ?_⟩ <;>
+  · apply BitVec.eq_of_getLsbD_eq
+    intro i hi
+    simp only [BitVec.getLsbD_extractLsb', hi, decide_true, Bool.true_and]
+    rw [getLsbD_byteswap64 _ _ (by omega)]
+    congr 1
+    omega
+
+/-- A word read raw from a big-endian file on a little-endian machine, then byte-swapped, has the
+    value the file encodes (the big-endian reading of the bytes as they lie in memory). -/
+theorem byteswap32_toNat (x : BitVec 32) : (byteswap32 x).toNat = readBE (bytesLE32 x) := by
+  rw [← readLE_bytesLE32, bytesLE32_byteswap32, readLE_reverse]
+
+theorem byteswap64_toNat (x : BitVec 64) : (byteswap64 x).toNat = readBE (bytesLE64 x) := by
+  rw [← readLE_bytesLE64, bytesLE64_byteswap64, readLE_reverse]
+
+/-! ## 9. PETSc binary file offsets
+
+Layout: 4 header ints (classid, n_rows, n_cols, nnz), `n` row lengths (4 bytes each), `total`
+column indices (4 bytes each), `total` values (8 bytes each). -/
+
+def rowLenOff (firstRow : Nat) : Nat := (4 + firstRow) * 4
+def colOff (n firstNnz : Nat) : Nat := (4 + n + firstNnz) * 4
+def valOff (n total firstNnz : Nat) : Nat := (4 + n + total) * 4 + firstNnz * 8
+
+/-- prefix sums: what rank `r` skips -/
+def prefixSum (f : Nat → Nat) : Nat → Nat
+  | 0 => 0
+  | r + 1 => prefixSum f r + f r
+
+theorem rowLenOff_zero : rowLenOff 0 = 16 := rfl
+
+theorem rowLenOff_succ (rows : Nat → Nat) (r : Nat) :
+    rowLenOff (prefixSum rows (r + 1)) = rowLenOff (prefixSum rows r) + 4 * rows r := by
+  simp only [rowLenOff, prefixSum]; omega
+
+theorem rowLen_end_eq_col_begin (n : Nat) : rowLenOff n = colOff n 0 := by
+  simp only [rowLenOff, colOff]; omega
+
+theorem colOff_succ (n : Nat) (nnz : Nat → Nat) (r : Nat) :
+    colOff n (prefixSum nnz (r + 1)) = colOff n (prefixSum nnz r) + 4 * nnz r := by
+  simp only [colOff, prefixSum]; omega
+
+theorem col_end_eq_val_begin (n total : Nat) : colOff n total = valOff n total 0 := by
+  simp only [colOff, valOff]; omega
+
+theorem valOff_succ (n total : Nat) (nnz : Nat → Nat) (r : Nat) :
+    valOff n total (prefixSum nnz (r + 1)) = valOff n total (prefixSum nnz r) + 8 * nnz r := by
+  simp only [valOff, prefixSum]; omega
+
+/-- the file ends where the last rank's values end -/
+theorem valOff_end (n total : Nat) : valOff n total total = 16 + 4 * n + 12 * total := by
+  simp only [valOff]; omega
+
+/-- with `P` ranks whose rows sum to `n` and whose nonzeros sum to `total`, the last rank's ranges
+    end exactly at the section boundaries -/
+theorem sections_tile (P n total : Nat) (rows nnz : Nat → Nat)
+    (hn : prefixSum rows P = n) (ht : prefixSum nnz P = total) :
+    rowLenOff (prefixSum rows P) = colOff n 0 ∧
+      colOff n (prefixSum nnz P) = valOff n total 0 ∧
+        valOff n total (prefixSum nnz P) = 16 + 4 * n + 12 * total := by
+  rw [hn, ht]
+  exact ⟨rowLen_end_eq_col_begin n, col_end_eq_val_begin n total, valOff_end n total⟩
+
+/-! ## examples: 2×3 grid, 9-point stencil `[1,…,9]` (position `3*(dy+1) + (dx+1)`)
+
+```
+points:   0 1 2
+          3 4 5
+```
+-/
+
+example : coords [2, 3] 4 = [1, 1] := by decide
+example : index [2, 3] [1, 2] = 5 := by decide
+example : strides [2, 3] = [3, 1] := by decide
+/-- interior coupling: 1 = (0,1) and 4 = (1,1): offset (+1, 0), weight number 7 -/
+example : entry [2, 3] [1, 2, 3, 4, 5, 6, 7, 8, 9] 1 4 = some (8 : Int) := by decide
+/-- 0 = (0,0) and 1 = (0,1): offset (0,+1), weight number 5 -/
+example : entry [2, 3] [1, 2, 3, 4, 5, 6, 7, 8, 9] 0 1 = some (6 : Int) := by decide
+/-- diagonal neighbour 1 = (0,1), 3 = (1,0): offset (+1,-1), weight number 6 -/
+example : entry [2, 3] [1, 2, 3, 4, 5, 6, 7, 8, 9] 1 3 = some (7 : Int) := by decide
+/-- the diagonal entry is the centre weight -/
+example : entry [2, 3] [1, 2, 3, 4, 5, 6, 7, 8, 9] 2 2 = some (5 : Int) := by decide
+/-- the offset `(0,+1)` sits on the diagonal `q - p = 1` ... -/
+example : dotInt (strides [2, 3]) [0, 1] = 1 := by decide
+/-- ... but p = 2 (end of row 0) and q = 3 (start of row 1) are NOT coupled although q − p = 1:
+    their coordinate offset is (+1, −2). -/
+example : entry [2, 3] [1, 2, 3, 4, 5, 6, 7, 8, 9] 2 3 = (none : Option Int) := by decide
+example : offset [2, 3] 2 3 = [1, -2] := by decide
+/-- likewise 3 → 2 (offset (0,−1) would be diagonal −1) -/
+example : entry [2, 3] [1, 2, 3, 4, 5, 6, 7, 8, 9] 3 2 = (none : Option Int) := by decide
+/-- far-apart points are not coupled -/
+example : entry [2, 3] [1, 2, 3, 4, 5, 6, 7, 8, 9] 0 5 = (none : Option Int) := by decide
+/-- the 5-point Laplacian on the 2×3 grid has 6 + 2*7 = 20 nonzeros (zero weights skipped) -/
+example : (matrix (fun w : Int => w == 0) [2, 3] [0, -1, 0, -1, 4, -1, 0, -1, 0]).length = 20 := by
+  decide
+example : stencilPos [0, 0] = 4 := by decide
+example : byteswap32 0x11223344#32 = 0x44332211#32 := by decide
+example : byteswap64 0x1122334455667788#64 = 0x8877665544332211#64 := by decide
+
 end Raptor.C19
